@@ -82,24 +82,26 @@ theorem genOps_ok : @NextLowerOk genOps ∧ @MacsOk genOps Stream := by
 
 /-- builder S — `Session::handle_rx` with the regenerated `handle_downlink_macs` inside is the model's
 `sessionHandleRx`: `tieA_handle_rx_accept` with `S` := every command stream and NO simulation hypothesis (builder X: for a downlink-typed
-frame, `hup`; uplink-typed frames: `TieA.Rx.handle_rx_uplink_typed`, instance-independent) -/
+frame, `hup`; uplink-typed frames: `TieA.Rx.handle_rx_uplink_typed`, instance-independent; builder Y: carrying the
+session's DevAddr if it fits, `haddr`; frames addressed to another device: `TieA.Rx.handle_rx_other_devaddr`, instance-independent) -/
 theorem handle_rx_full (D : Int) (gs : Gen.SessionRx.Session) (rs : RegionState) (g : Gen.SessionRx.Configuration)
     (rx : Gen.SessionRx.RadioBuffer) (dl : List Gen.SessionRx.Downlink) (maxp snr : Int) (ign : Bool)
     (e : Gen.SessionRx.EncryptedDataPayload)
     (hparse : rx.as_mut_for_read.parse = some e) (hup : e.is_uplink = false)
+    (haddr : ¬ (e.as_bytes.length : Int) > maxp + 5 → e.fhdr.dev_addr = gs.devaddr)
     (hw : SessWF gs) (hmax : 0 ≤ maxp ∧ maxp ≤ 255) (hwire : 0 ≤ e.fhdr.fcnt)
     (hdec : ∀ f, Gen.SessionRx.next_fcnt_down gs.fcnt_down e.fhdr.fcnt = some f → e.validate_mic (nwkOf gs) f = true →
       ∃ d, rx.as_mut_for_read.decrypt_in_place (some (nwkOf gs)) (some (appOf gs)) f = some d ∧ DecWF Stream d) :
     (@Gen.SessionRx.Session.handle_rx RegionState genOps D gs rs g rx dl maxp snr ign).bind
         (fun out => (respOf out.1).map (fun r => (r, sessOf out.2.1, out.2.2.1, cfgOf out.2.2.2.1, out.2.2.2.2.2.map dlOf)))
       = (sessionHandleRx (sessOf gs) (cfgOf g) rs (dataOf gs e (decOf gs rx e)) maxp.toNat snr ign).toOption.map (expect dl D) :=
-  @tieA_handle_rx_accept genOps Stream genOps_ok.1 genOps_ok.2 D gs rs g rx dl maxp snr ign e hparse hup hw hmax hwire hdec
+  @tieA_handle_rx_accept genOps Stream genOps_ok.1 genOps_ok.2 D gs rs g rx dl maxp snr ign e hparse hup haddr hw hmax hwire hdec
 
 /-! ## non-vacuity: a frame whose FOpts carry a LinkADRReq (mask 0x0007, DR5, power 1) and a DevStatusReq -/
 
 def exEnc : Gen.SessionRx.EncryptedDataPayload :=
-  ⟨List.replicate 22 0, true, ⟨5, [3, 0x51, 0x07, 0x00, 0x00, 6]⟩, fun c f => c.key.id == 11 && f == 5, false⟩
-def exDec : Gen.SessionRx.DecryptedDataPayload := ⟨⟨5, [3, 0x51, 0x07, 0x00, 0x00, 6]⟩, some 7, .Data [1, 2, 3]⟩
+  ⟨List.replicate 22 0, true, ⟨5, [3, 0x51, 0x07, 0x00, 0x00, 6], ⟨99⟩⟩, fun c f => c.key.id == 11 && f == 5, false⟩
+def exDec : Gen.SessionRx.DecryptedDataPayload := ⟨⟨5, [3, 0x51, 0x07, 0x00, 0x00, 6], ⟨99⟩⟩, some 7, .Data [1, 2, 3]⟩
 def exRx : Gen.SessionRx.RadioBuffer := ⟨⟨some exEnc, fun _ _ f => if f = 5 then some exDec else none⟩⟩
 
 /-- the regenerated `handle_rx` with the regenerated `handle_downlink_macs` on the model's EU868 region: the frame is
@@ -117,7 +119,7 @@ example :
       = (sessionHandleRx (sessOf exSess) (cfgOf exCfg) (RegionState.init .EU868) (dataOf exSess exEnc (decOf exSess exRx exEnc))
           (250 : Int).toNat 3 false).toOption.map (expect [] 4) := by
   have hf5 : Gen.SessionRx.next_fcnt_down exSess.fcnt_down exEnc.fhdr.fcnt = some 5 := by decide
-  refine handle_rx_full 4 exSess (RegionState.init .EU868) exCfg exRx [] 250 3 false exEnc rfl rfl ?_ (by omega) (by decide) ?_
+  refine handle_rx_full 4 exSess (RegionState.init .EU868) exCfg exRx [] 250 3 false exEnc rfl rfl (fun _ => rfl) ?_ (by omega) (by decide) ?_
   · refine ⟨by decide, by decide, by decide, by decide, ?_⟩
     intro f hf
     have : f = 4 := by simpa [exSess] using hf.symm
